@@ -346,6 +346,35 @@ def rule_insert_ladders(chk, rid, families=None, floor=1000, also=None):
                         'offset %d at index %d' % (k[0], rel, k[1], k[2], k[3], v[i]['disp'], v[i]['idx'], d[i - 1], w, v[i]['disp'], v[i]['idx']))
 
 
+def rule_dup_stores(chk, rid, families=None, floor=20, also=None):
+    """a value an instruction COMPUTED (not a zero idiom, not a constant, not a plain load) is not written twice, unchanged, to two different
+    places within 64 bytes of each other through one pointer: the second half of a two-part store (digest halves, tag remainder, block
+    pairs) must come from a different value.  Reaching-stores dataflow over the exact CFG of every routine; constant steps of the pointer
+    between the two stores (lea/add/sub/inc/dec) are folded into the distance."""
+    from .. import insnscan
+    r = chk.rule(rid, 'no computed vector value is stored twice, unchanged, at overlapping register bytes to two different addresses within 64 '
+                      'bytes through one pointer (the second part of a split store repeats the first)', floor=floor)
+    fx = insnscan.dupstore_fixture()
+    hit = [f for f in fx if f['fn'] == 'w6_fixture_bad' and f['defs'] == ['compute'] and 0 < abs(f['delta']) <= 64]
+    miss = [f for f in fx if f['fn'] == 'w6_fixture_good' and f['defs'] == ['compute'] and 0 < abs(f['delta']) <= 64]
+    if not hit or miss:
+        chk.broken('%s: the duplicate-store scan does not separate its positive fixture from the negative one' % rid)
+    r.ok('fixture', 'data/fixtures/dupstore.asm: bad form reported, good form silent')
+    for rel, lst in sorted(insnscan.dupstores().items()):
+        fam = 'mgr' if '/mb_mgr_' in rel else family_of(rel, '')
+        if families is not None and fam not in families and not (also and re.search(also, rel)):
+            continue
+        for f in lst:
+            if 'zero' in f['defs'] or 'const' in f['defs'] or f['defs'] == ['entry']:
+                continue
+            bad = f['defs'] == ['compute'] and 0 < abs(f['delta']) <= 64
+            r.check(not bad, '%s:%s+%#x/%#x' % (rel, f['fn'], f['b'], f['a']), rel,
+                    '%s (%s): `%s` at +%#x and `%s` at +%#x write the same unchanged value (last computed by `%s`) %d bytes apart: the second '
+                    'store repeats the first instead of writing the next part' % (f['fn'], rel, f['first'], f['b'], f['second'], f['a'],
+                                                                                    '; '.join(f['def_txt']), f['delta']))
+    return r
+
+
 UNREACH_BASELINE = _os.path.join(_os.path.dirname(DU_BASELINE), 'unreach_baseline.json')
 
 
